@@ -20,8 +20,9 @@ type vpC35Entry struct {
 }
 
 func TestVP_C35_topo_write(t *testing.T) {
-	c := kit.New(t, "C35", "rapid: histories of 5..60 snapshots finalized through the real node (TopoWrite) over 7 chains with round transitions and batches, interleaved with cursor listings (offset in {0, existing, gap, last, last+1, 2^64-1}, count in {0,1,7,500,501}), by-hash lookups and node restarts (store reopened, counter rebuilt); oracle: model list of (position, hash) in assignment order: assigned positions strictly increase and never repeat (also across restarts), a listing equals the first count model entries at or after the offset in increasing order with each entry's own position and payload hash, count above 500 is refused, lookup by hash returns the model position; non-trivial = listing returning >=2 entries from a non-zero offset; distinct by (history length, offset, count)")
-	c.Require("restart", "listing-nonzero-offset>=2", "count-501-refused", "offset-beyond-last", "batch", "lookup")
+	c := kit.New(t, "C35", "rapid: histories of 5..60 snapshots finalized through the real node (TopoWrite) over 7 chains with round transitions and batches (a fifth of the snapshots carry, alone or next to new ones, a transaction that another chain's snapshot finalized before), interleaved with cursor listings (offset in {0, existing, gap, last, last+1, 2^64-1}, count in {0,1,7,500,501}), by-hash lookups and node restarts (store reopened, counter rebuilt); oracle: model list of (position, hash) in assignment order: assigned positions strictly increase and never repeat (also across restarts), a listing equals the first count model entries at or after the offset in increasing order with each entry's own position and payload hash, count above 500 is refused, lookup by hash returns the model position; non-trivial = listing returning >=2 entries from a non-zero offset; distinct by (history length, offset, count)")
+	c.Assume("a certified snapshot never repeats a transaction its own chain already holds (honest signers refuse such a proposal; the store answers it with its 'snapshot duplication' assertion)")
+	c.Require("restart", "listing-nonzero-offset>=2", "count-501-refused", "offset-beyond-last", "batch", "lookup", "member-finalized-before")
 	kit.SetChecks(kit.N(60, 1500))
 	rapid.Check(t, func(t *rapid.T) {
 		e := vpC16Start("c35")
@@ -36,6 +37,8 @@ func TestVP_C35_topo_write(t *testing.T) {
 			model = append(model, vpC35Entry{s.TopologicalOrder, s.Hash})
 		}
 		taken := 0
+		var finalizedTxs []*common.VersionedTransaction
+		chainsOf := map[crypto.Hash]map[crypto.Hash]bool{} // transaction -> chains that hold it
 		sync := func() {
 			// positions the node assigned since the last sync, in assignment order
 			w := e.k.Proxy
@@ -63,10 +66,40 @@ func TestVP_C35_topo_write(t *testing.T) {
 					e.seq++
 					txs = append(txs, e.net.BTCDeposit(common.NewInteger(1), j%4, fmt.Sprintf("0xc35-%d", e.seq), e.seq))
 				}
+				var again *common.VersionedTransaction
+				if len(finalizedTxs) > 0 && rapid.IntRange(0, 4).Draw(t, "again") == 0 {
+					// a transaction some chain has finalized already arrives once more in
+					// another chain's snapshot (alone, or next to new ones): the snapshot
+					// is stored and takes a position of its own
+					old := finalizedTxs[rapid.IntRange(0, len(finalizedTxs)-1).Draw(t, "again_tx")]
+					if rapid.Bool().Draw(t, "again_alone") {
+						txs = nil
+					}
+					txs = append(txs, old)
+					again = old
+				}
 				s := e.snapshotFor(t, txs)
+				if again != nil && chainsOf[again.PayloadHash()][s.NodeId] {
+					// a chain holds a transaction once; no honest signer certifies a
+					// second snapshot of the same chain with it
+					e.seq++
+					txs[len(txs)-1] = e.net.BTCDeposit(common.NewInteger(1), 0, fmt.Sprintf("0xc35-%d", e.seq), e.seq)
+					again = nil
+					s = e.snapshotFor(t, txs)
+				}
+				if again != nil {
+					c.Class("member-finalized-before")
+				}
 				fin, pan, err := e.finalize(s, txs)
 				if !fin || pan != nil || err != nil {
 					t.Fatalf("finalize: %v %v %v", fin, pan, err)
+				}
+				for _, tx := range txs {
+					if chainsOf[tx.PayloadHash()] == nil {
+						chainsOf[tx.PayloadHash()] = map[crypto.Hash]bool{}
+						finalizedTxs = append(finalizedTxs, tx)
+					}
+					chainsOf[tx.PayloadHash()][s.NodeId] = true
 				}
 				sync()
 			case op == 5: // restart
